@@ -56,6 +56,20 @@ def bmff_top_level_boxes(b, cap=1 << 22):
     return n
 
 
+def id3_frame_oversize(b, limit=64 << 20):
+    """an ID3v2.3 / v2.4 tag with a frame whose declared size exceeds both the bytes that follow it and [limit]"""
+    if b[:3] != b"ID3" or len(b) < 20 or b[3] not in (3, 4):
+        return False
+    off = 10
+    while off + 10 <= len(b) and b[off] != 0:
+        raw = b[off + 4:off + 8]
+        size = int.from_bytes(raw, "big") if b[3] == 3 else ((raw[0] & 0x7f) << 21) | ((raw[1] & 0x7f) << 14) | ((raw[2] & 0x7f) << 7) | (raw[3] & 0x7f)
+        if size > len(b) - off - 10 and size > limit:
+            return True
+        off += 10 + size
+    return False
+
+
 def hint_families():
     return ["application/c2pa", "image/jpeg", "image/png", "image/gif", "video/mp4", "image/avif", "audio/wav", "image/webp",
             "video/avi", "image/svg+xml", "image/tiff", "image/x-adobe-dng", "audio/mpeg", "application/pdf", "audio/flac",
@@ -112,6 +126,67 @@ def tiny_mp4():
     return ftyp + moov + mdat
 
 
+XMP = (b'<?xpacket begin="\xef\xbb\xbf" id="W5M0MpCehiHzreSzNTczkc9d"?><x:xmpmeta xmlns:x="adobe:ns:meta/">'
+       b'<rdf:RDF xmlns:rdf="http://www.w3.org/1999/02/22-rdf-syntax-ns#"><rdf:Description rdf:about=""/></rdf:RDF>'
+       b'</x:xmpmeta><?xpacket end="w"?>')
+
+
+def riff_chunk(cc, data):
+    return cc + le32(len(data)) + data + (b"\x00" if len(data) & 1 else b"")
+
+
+def webp_xmp():
+    body = b"WEBP" + riff_chunk(b"VP8 ", bytes(10)) + riff_chunk(b"XMP ", XMP)
+    return b"RIFF" + le32(len(body)) + body
+
+
+def wav_xmp():
+    w = tiny_wav()
+    body = w[8:] + riff_chunk(b"XMP ", XMP)
+    return b"RIFF" + le32(len(body)) + body
+
+
+def gif_xmp():
+    g = tiny_gif()
+    magic = bytes([1]) + bytes(range(255, -1, -1)) + b"\x00"
+    ext = bytes([0x21, 0xFF, 11]) + b"XMP DataXMP" + XMP + magic
+    return g[:-1] + ext + b"\x3b"
+
+
+def tiff_xmp():
+    ents = [(256, 3, 1, 1), (257, 3, 1, 1), (258, 3, 1, 8), (259, 3, 1, 1), (262, 3, 1, 1), (273, 4, 1, 0),
+            (278, 3, 1, 1), (279, 4, 1, 1), (700, 1, len(XMP), 0)]
+    base = 8 + 2 + len(ents) * 12 + 4
+    ents[5] = (273, 4, 1, base)
+    ents[8] = (700, 1, len(XMP), base + 2)
+    ifd = struct.pack("<H", len(ents)) + b"".join(struct.pack("<HHII", t, ty, c, v) for t, ty, c, v in ents) + le32(0)
+    return b"II*\x00" + le32(8) + ifd + b"\x7f\x00" + XMP
+
+
+def jpeg_xmp():
+    j = fixture("IMG_0003.jpg")
+    pay = b"http://ns.adobe.com/xap/1.0/\x00" + XMP
+    return j[:2] + b"\xff\xe1" + struct.pack(">H", 2 + len(pay)) + pay + j[2:]
+
+
+def mp4_xmp():
+    m = tiny_mp4()
+    pay = bytes.fromhex("be7acfcb97a942e89c71999491e3afac") + XMP
+    return m + be32(8 + len(pay)) + b"uuid" + pay
+
+
+def svg_xmp():
+    return (b'<?xml version="1.0" encoding="UTF-8"?>\n<svg xmlns="http://www.w3.org/2000/svg" width="10" height="10"><metadata>'
+            + XMP + b'</metadata><rect width="10" height="10"/></svg>\n')
+
+
+def mp3_xmp():
+    frame = b"PRIV" + be32(4 + len(XMP)) + b"\x00\x00" + b"XMP\x00" + XMP
+    n = len(frame)
+    ss = bytes([(n >> 21) & 0x7f, (n >> 14) & 0x7f, (n >> 7) & 0x7f, n & 0x7f])
+    return b"ID3\x03\x00\x00" + ss + frame + (b"\xff\xfb\x90\x64" + bytes(413)) * 2
+
+
 def base_assets():
     out = [
         {"name": "png", "hint": "image/png", "family": "png", "bytes": fixture("libpng-test.png"), "sign": True},
@@ -130,6 +205,19 @@ def base_assets():
         {"name": "pdfsigned", "hint": "application/pdf", "family": "pdf", "bytes": fixture("basic-signed.pdf"), "sign": False},
         {"name": "pngz", "hint": "image/png", "family": "png", "bytes": fixture("libpng-test.png"), "sign": True,
          "settings": '{"core": {"prefer_compress_manifests": true}}'},
+        # files WITHOUT a manifest: the reader then looks for XMP (remote manifest reference) - a second parser per format
+        {"name": "webp_xmp", "hint": "image/webp", "family": "riff", "bytes": webp_xmp(), "sign": False},
+        {"name": "wav_xmp", "hint": "audio/wav", "family": "riff", "bytes": wav_xmp(), "sign": False},
+        {"name": "avi_xmp", "hint": "video/avi", "family": "riff", "bytes": webp_xmp().replace(b"WEBP", b"AVI "), "sign": False},
+        {"name": "png_xmp", "hint": "image/png", "family": "png", "bytes": fixture("libpng-test_with_url.png"), "sign": False},
+        {"name": "gif_xmp", "hint": "image/gif", "family": "gif", "bytes": gif_xmp(), "sign": False},
+        {"name": "tiff_xmp", "hint": "image/tiff", "family": "tiff", "bytes": tiff_xmp(), "sign": False},
+        {"name": "jpeg_xmp", "hint": "image/jpeg", "family": "jpeg", "bytes": jpeg_xmp(), "sign": False},
+        {"name": "mp4_xmp", "hint": "video/mp4", "family": "bmff", "bytes": mp4_xmp(), "sign": False},
+        {"name": "svg_xmp", "hint": "image/svg+xml", "family": "svg", "bytes": svg_xmp(), "sign": False},
+        {"name": "mp3_xmp", "hint": "audio/mpeg", "family": "mp3", "bytes": mp3_xmp(), "sign": False},
+        {"name": "flac_plain", "hint": "audio/flac", "family": "flac", "bytes": tiny_flac(), "sign": False},
+        {"name": "jxl_plain", "hint": "image/jxl", "family": "bmff", "bytes": tiny_jxl(), "sign": False},
     ]
     return out
 
@@ -388,6 +476,34 @@ def mutants(base, rng):
             # the 64-bit form: size = 1, then the XLBox / largesize over the following bytes
             for xl in (0, 1, 15, 16, 1 << 31, 1 << 32, 1 << 63, U64, U64 - off, U64 - off - 1):
                 yield f"{kind}-xl:{off}:{xl}", b[:off] + be32(1) + b[off + 4:off + 8] + be64(xl) + b[off + 16:]
+    # "declared": several declared lengths large AT THE SAME TIME, so that an inner length stays consistent with the
+    # enclosing one while both exceed the bytes that are really there (an allocation sized by a declared length)
+    lf = [f for f in fields if f[2] != "cbor" and f[1] >= 2 and f[0] >= 0 and f[0] + f[1] <= len(b)
+          and not f[3].startswith("der-")][:48]
+    if len(lf) >= 2:
+        def big(width, k):
+            full = (1 << (8 * width)) - 1
+            return [full, full - 15, 1 << (8 * width - 1), (1 << (8 * width - 1)) - 16][k]
+        for k in range(4):                      # every length field
+            m = b
+            for off, width, endian, kind in lf:
+                m = put(m, off, width, endian, big(width, k))
+            yield f"declared-all:{k}", m
+        outer = lf[0]
+        for off, width, endian, kind in lf[1:]:
+            for ko, ki in ((0, 1), (0, 2), (0, 3), (2, 3)):      # outer (first field) huge, one inner just below it
+                m = put(b, outer[0], outer[1], outer[2], big(outer[1], ko))
+                m = put(m, off, width, endian, big(width, ki))
+                yield f"declared-pair:{off}:{ko}{ki}", m
+            # the inner length reaching exactly (or almost) the end that the outer length declares
+            if width == outer[1] and off > outer[0]:
+                full = (1 << (8 * width)) - 1
+                for delta in (0, 4, 16):
+                    v = full - (off - outer[0]) - delta
+                    v -= v & 1
+                    m = put(b, outer[0], outer[1], outer[2], full)
+                    m = put(m, off, width, endian, v)
+                    yield f"declared-fit:{off}:{delta}", m
     # truncation at every structural boundary (and one byte around it)
     cuts = set()
     for off, width, endian, kind in fields:
